@@ -110,6 +110,10 @@ func c07(part int) { c07only(part, "") }
 // program never runs with limits other than the configured ones.
 func VerifC08_RefusedLimit() { c07only(0, "prlimit64") }
 
+// VerifC04_IdMapRefused: the kernel refusing the uid/gid map (or setgroups) file of a new user
+// namespace stops the launch: the program never runs in a namespace without its maps.
+func VerifC04_IdMapRefused() { c07only(0, "open_idmap,write_idmap") }
+
 func c07only(part int, only string) {
 	l := newLaunchX(true, true, true)
 	k, r := l.k, l.r
